@@ -13,7 +13,7 @@ from harness.steps import process_step
 EAGER = ["ack", "nack", "reject", "reschedule", "retry", "force_retry"]
 EXTRAS = ["plain", "set_result", "set_exception", "callback", "raising_callback", "raising_partial_callback"]
 BEHAVIOURS = (["return", "raise", "sleep_vs_timeout", "bad_payload", "failing_dependency", "bad_return", "raise_unprintable"] +
-              ["eager_" + e for e in EAGER] + ["eager_reject_on_timeout", "nested_dependency_acks"])
+              ["eager_" + e for e in EAGER] + ["eager_reject_on_timeout", "nested_dependency_acks", "args_bucket_gone"])
 
 
 def _action(beh):
@@ -43,6 +43,9 @@ def h02_ladder(S):
         S.cover("nack")
         want = "nack"
     S.check("correct-disposition", ops[0] == want, info=f"{ops[0]} != {want}")
+    if ops[0] == "requeue" and not (o.fail and o.k < o.N):
+        # a reschedule starts the next period with a fresh retry budget, so that failures there are retried again
+        S.check("rescheduled-period-starts-with-a-fresh-retry-budget", o.calls[0]["args"][2].retries.already_tried == 0)
     S.check("disposition-completed", o.calls[0]["done"])
     S.check("single-copy", len(o.places.get("m1", [])) <= 1)
     if with_result:
@@ -168,7 +171,7 @@ def h02_worker(S, eager_extras=False, backend="mem", tasks_limit=2):
         raise RuntimeError("provider failed")
 
     async def main(loop):
-        w = World(results=not no_rb, backend=backend)
+        w = World(results=not no_rb, backend=backend, args_bucket=(beh == "args_bucket_gone"))
         await w.open(record=True)
         r = Router()
         policy = lambda retry_number=1: real_timedelta(hours=1)  # noqa: E731
@@ -262,6 +265,10 @@ def h02_worker(S, eager_extras=False, backend="mem", tasks_limit=2):
             timestamp=P.datetime.now(),
         )
         payload = '{"i": 1}'
+        if beh == "args_bucket_gone":
+            # the arguments travelled through a bucket that has expired or was deleted by the time the message runs
+            from repid._utils import _ArgsBucketInMessageId
+            payload = _ArgsBucketInMessageId.construct("no-such-bucket")
         if beh == "bad_payload":
             payload = '{"i": "not-a-number"}' if conv is PydanticConverter else '{"i": 1'
         # enqueue bypassing delay computation for recurring jobs: place directly as waiting
@@ -334,7 +341,7 @@ def h02_worker(S, eager_extras=False, backend="mem", tasks_limit=2):
     elif beh == "nested_dependency_acks":
         want, invoked = "ack", 0
         S.check("nothing-runs-after-a-dependency-answered", runs.get("outer", 0) == 0 and runs["m1"] == 0, info=str(runs))
-    elif beh in ("bad_payload", "failing_dependency"):
+    elif beh in ("bad_payload", "failing_dependency", "args_bucket_gone"):
         want, invoked = ladder(True), 0
     elif beh in ("bad_return", "raise_unprintable"):
         want, invoked = ladder(True), 1
